@@ -31,7 +31,7 @@ Theorem C16_internal_only_replication : forall p, In p internal_callers -> fst p
 Proof. exact internal_only_replication. Qed.
 Print Assumptions C16_internal_only_replication.
 
-Theorem C16_leaks_known : incl leak_names ["GetTransactionManager"%string; "GetWAL"%string].
+Theorem C16_leaks_known : incl leak_names ["GetWAL"%string].
 Proof. exact leaks_known. Qed.
 Print Assumptions C16_leaks_known.
 
@@ -42,11 +42,17 @@ Theorem C16_ro_step : forall n a, ro_inv n -> safe_act a = true ->
   match a with
   | AClient c => eng (fst x) = eng n /\ (must_reject n c = true -> ro_class (snd x) = true)
   | ARepl r => (eng (fst x), snd x) = apply_eng (eng n) r
-  | AMergePut _ _ => eng (fst x) = eng n /\ snd x = RRoErr
-  | _ => eng (fst x) = eng n
+  | ASetRO _ => eng (fst x) = eng n
   end.
 Proof. exact ro_step. Qed.
 Print Assumptions C16_ro_step.
+
+(* safe_act excludes only an unknown unguarded mutator and SetReadOnly(false); in particular
+   every client call the model has a constructor for, and every applied entry, is safe *)
+Theorem C16_safe_acts : forall a, safe_act a = false ->
+  a = AClient (CGeneric true false) \/ a = ASetRO false.
+Proof. exact safe_act_exceptions. Qed.
+Print Assumptions C16_safe_acts.
 
 (* every interleaving of client calls with replication apply: the data is exactly what the
    applied entries make it, every mutation attempt got a read-only error *)
@@ -61,8 +67,8 @@ Theorem C16_apply : forall n r,
 Proof. exact apply_takes_effect. Qed.
 Print Assumptions C16_apply.
 
-Theorem C16_apply_expand : forall n r, ro_inv n ->
-  fst (run_acts n (expand (ro n) r)) = fst (step_repl n r).
+Theorem C16_apply_expand : forall n r b,
+  expand b r = [ARepl r] /\ fst (run_acts n (expand b r)) = fst (step_repl n r).
 Proof. exact expand_uninterrupted. Qed.
 Print Assumptions C16_apply_expand.
 
@@ -89,21 +95,6 @@ Theorem C16_replica_start : forall c e, mode c = RReplica -> enabled c = true ->
 Proof. exact replica_start. Qed.
 Print Assumptions C16_replica_start.
 
-(* what the faithful model refutes (findings F1, F2) *)
-Theorem C16_leak_refuted : exists n l,
-  ro_inv n /\ repl_only l = [] /\
-  l = [AClient (CLeakBegin false); AClient (CTxPut 0 kA v1); AClient (CTxCommit 0)] /\
-  let x := run_acts n l in
-  snd x = [ROk; ROk; ROk] /\ node_get (fst x) kA = Some v1 /\ node_get n kA = None /\ ro (fst x) = true.
-Proof. exact leak_refuted. Qed.
-Print Assumptions C16_leak_refuted.
-
-Theorem C16_merge_window_refuted : exists n c,
-  ro_inv n /\ must_reject n c = true /\
-  let e := expand (ro n) (RMergeE kA v1) in
-  let t := firstn 1 e ++ [AClient c] ++ skipn 1 e in
-  let x := run_acts n t in
-  nth_error (snd x) 1 = Some ROk /\ node_get (fst x) kB = Some v2 /\
-  node_get (fst (step_repl n (RMergeE kA v1))) kB = None /\ ro (fst x) = true.
-Proof. exact merge_window_refuted. Qed.
-Print Assumptions C16_merge_window_refuted.
+(* The two defects this check found (F1 accessor leak, F2 Merge-apply window) are repaired in
+   /repo (b9d5905, 574c666); their witnesses are kept as regression documentation in
+   ReadOnlyProofs.BeforeFixes, and corpus/C16/leak-txmanager.case, race-merge.case replay them. *)
